@@ -92,7 +92,7 @@ SCHEMA = {
     # class-extension twins: same type identifier, extra defaulted / Meta / generated parameters
     "leaf_v2": dict(tid="u.leaf", py="LeafV2", twin_of="leaf", isa="leaf", fields=_LEAF + [
         F("a_new", "int", 7), F("n_meta", "int", 3, ignored=True), F("z_gen", "genpath", generated=True),
-        F("n_list", "list:int", []), F("n_opt", "opt:cfg:leaf")]),
+        F("n_list", "list:int", []), F("n_opt", "opt:cfg:leaf"), F("n_fl", "float", 0)]),
     "box_v2": dict(tid="u.box", py="BoxV2", twin_of="box", isa="box", fields=_BOX + [
         F("a_new", "str", "n"), F("n_dict", "dict:int", {"dict": {}}), F("sab", "str", "d")]),
     # deprecated twins: take the identifier of their replacement
